@@ -56,7 +56,8 @@ type Contract struct {
 	Lemmas      []string // names of lemmas whose statements are assumed in this function's VCs
 	Hints       []*Clause
 	Locals      map[string]string // local variables the contract names, with their types: lets a renamed local be re-bound
-	OnAppend    []*Clause // obligations on every error value appended in the function (bound as e)
+	LocalsOrd   []string          // ... in the order of their declarations in the source when the contract was written
+	OnAppend    []*Clause         // obligations on every error value appended in the function (bound as e)
 }
 
 type SpecFn struct {
@@ -261,6 +262,7 @@ func (sp *Specs) loadFile(path string) error {
 					cur.Locals = map[string]string{}
 				}
 				cur.Locals[f[0]] = strings.Join(f[1:], " ")
+				cur.LocalsOrd = append(cur.LocalsOrd, f[0])
 			case "uses":
 				cur.Lemmas = append(cur.Lemmas, strings.Fields(strings.ReplaceAll(rest, ",", " "))...)
 			case "reads":
